@@ -295,6 +295,11 @@ def gen_failing_selfies(rng, ctx):
     """Failure in the middle of a derivation: atoms, rings and nested branches
     have been accumulated before the invalid symbol is met."""
     head = gen_selfies(rng, ctx, rng.choice(("branchy", "rings", "novel", "plain")))
+    if rng.random() < 0.2:
+        # the input breaks off (hanging bracket) in the middle of a multi-symbol index
+        sym = rng.choice(("[Branch2]", "[Ring2]", "[=Ring2]", "[Branch3]", "[Ring3]"))
+        k = rng.randint(1, 2 if sym.endswith("3]") else 1)
+        return head + sym + "".join(rng.choice(stubs.INDEX_ALPHABET[1:]) for _ in range(k)) + rng.choice(("[C", "[", "[Ring1"))
     u = rng.random()
     if u < 0.6:
         bad = rng.choice(INVALID)
@@ -402,13 +407,13 @@ def gen_smiles(rng, ctx):
 PROFILES = {
     # relative weights of op kinds; per run a random subset is switched off (swarm)
     "C11": dict(set_preset=6, set_table=8, set_bad=4, get=1, get_preset=1, get_alphabet=2, mutate=4,
-                decode=30, encode=14, decode_fail=5, encode_fail=3, flood=2, observe=2, alpha_decode=0, util=2, repeat=8, deep=1),
+                decode=30, encode=14, decode_fail=5, encode_fail=3, flood=2, observe=2, alpha_decode=0, util=2, repeat=8, deep=2, set_from=1),
     "C12": dict(set_preset=8, set_table=10, set_bad=14, get=10, get_preset=8, get_alphabet=8, mutate=16,
-                decode=8, encode=4, decode_fail=3, encode_fail=1, flood=1, observe=6, alpha_decode=0, util=1, repeat=2, deep=0),
+                decode=8, encode=4, decode_fail=3, encode_fail=1, flood=1, observe=6, alpha_decode=0, util=1, repeat=2, deep=0, set_from=6),
     "C07": dict(set_preset=6, set_table=14, set_bad=6, get=1, get_preset=1, get_alphabet=10, mutate=6,
-                decode=4, encode=1, decode_fail=2, encode_fail=0, flood=1, observe=3, alpha_decode=14, util=1, repeat=1, deep=0),
+                decode=4, encode=1, decode_fail=2, encode_fail=0, flood=1, observe=3, alpha_decode=14, util=1, repeat=1, deep=0, set_from=1),
     "C06": dict(set_preset=7, set_table=12, set_bad=4, get=1, get_preset=0, get_alphabet=1, mutate=2,
-                decode=4, encode=40, decode_fail=1, encode_fail=4, flood=2, observe=1, alpha_decode=0, util=1, repeat=6, deep=1),
+                decode=4, encode=40, decode_fail=1, encode_fail=4, flood=2, observe=1, alpha_decode=0, util=1, repeat=6, deep=1, set_from=1),
 }
 FAULT_KINDS = ("set_bad", "mutate", "decode_fail", "encode_fail", "flood")
 
@@ -601,13 +606,39 @@ class _GenState:
                     self.handles.append((idx, "attr"))
                     self.calls[idx] = dict(op)
                 yield op
+        elif kind == "set_from":
+            # get -> (maybe a valid edit) -> set(the very same object) -> corrupt it afterwards -> read
+            what = rng.choice(("get", "get", "get_preset"))
+            op = {"op": what}
+            if what == "get_preset":
+                op["name"] = rng.choice(PRESET_NAMES)
+            yield op
+            n = 1
+            if rng.random() < 0.5:
+                yield {"op": "mutate", "h": idx, "how": "setcap", "arg": [rng.choice(("C", "N", "O", "S", "?")), rng.choice((1, 2, 3, 5))]}
+                n += 1
+            self.handles.append((idx + n, "dict"))
+            yield {"op": "set_from", "h": idx}
+            n += 1
+            if rng.random() < 0.7:
+                yield {"op": "mutate", "h": idx + n - 1, "how": rng.choice(("clear", "junk", "setcap", "pop_q", "bump_all")),
+                       "arg": ["C", 0]}
+                n += 1
+            yield from self.query(idx + n, prefer="focus") if rng.random() < 0.5 else iter([{"op": "observe"}])
         elif kind == "deep":
             # nesting far beyond / well below the interpreter's recursion limit: the outcome (RecursionError
             # or not) must not depend on what ran before; unbalanced variants fail after the parser has
             # seen all the nesting
             n = rng.choice((1300, 1600))
             u = rng.random()
-            if u < 0.3:
+            if rng.random() < 0.3:
+                # a molecule with 100 or more rings (ring closure numbers beyond 99 are reused)
+                m = rng.randint(100, 130)
+                x = rng.choice(("[C]" + "[C][C][Ring1][Ring1]" * m,
+                                "[C]" + "[C][C][Ring1][Ring1]" * m + "[Ring3][Ring1][Ring2][Ring1]",
+                                "[C][C][C][Ring1][Ring1]" + "[N][C][C][=Ring1][Ring1]" * m))
+                op = {"op": "decode", "x": x, "compatible": False, "attribute": False}
+            elif u < 0.3:
                 op = {"op": "decode", "x": "[C]" + "[Branch1][P][C]" * n, "compatible": False, "attribute": False}
             elif u < 0.5:
                 op = {"op": "encode", "s": "C(" * n + "C" + ")C" * n, "strict": rng.random() < 0.5, "attribute": False}
